@@ -688,6 +688,12 @@ func (e *Engine) finish() *Violation {
 		return v
 	}
 	e.St.Shapes[worldShape(e.S.W)] = struct{}{}
+	if n := relTablesPerNode(e.S.W); n > e.St.Probes["max:rel-tables-per-node"] {
+		e.St.Probes["max:rel-tables-per-node"] = n
+	}
+	if relTablesPerNode(e.S.W) > 32 {
+		e.St.Probes["runs-with->32-tables-in-one-relation-node"]++
+	}
 	d := e.S.W.DumpEntities()
 	e.logEnts("dump", d.Entities)
 	e.log.U64(uint64(d.Next))
